@@ -179,4 +179,25 @@ theorem keyLt_pos (a b : Cut) (ha : a.Normal) (hb : b.Normal) :
     (try simp only [Int.lt_irrefl, false_or, true_and, and_false, or_false]) <;>
     omega
 
+/-! ### the predicates in terms of `CompareAscending` alone (no normalisation needed) -/
+
+/-- `a` is before `b` by `CompareAscending`, an absent bound on either side counting as infinitely far. -/
+def optCmpLt (a b : Option Ts) : Prop :=
+  match a, b with
+  | some x, some y => compareAscending x y < 0
+  | _, _ => True
+
+/-- `a` is not after `b` by `CompareAscending`, an absent bound on either side counting as infinitely far. -/
+def optCmpLe (a b : Option Ts) : Prop :=
+  match a, b with
+  | some x, some y => compareAscending x y ≤ 0
+  | _, _ => True
+
+theorem lower_upper_fieldwise (l u : Option Ts) (rest1 rest2 : Option Ts) :
+    ((cutPeriod ⟨l, rest1⟩).1.compareTo (cutPeriod ⟨rest2, u⟩).2 < 0 ↔ optCmpLt l u) ∧
+    ((cutPeriod ⟨l, rest1⟩).1.compareTo (cutPeriod ⟨rest2, u⟩).2 ≤ 0 ↔ optCmpLe l u) := by
+  cases l <;> cases u <;> cases rest1 <;> cases rest2 <;>
+    simp [cutPeriod, Cut.compareTo, compareValueCuts, optCmpLt, optCmpLe] <;>
+    (try (split <;> omega))
+
 end ScVerif.C18
